@@ -150,6 +150,7 @@ func c20(r *core.Report) {
 	c20Wrapper(r)
 	c20Inv(r)
 	c20TypedNil(r)
+	resetScope(r, "C20.resetscope")
 	crashPanic(r, csAll, map[string]panicExcuse{
 		"openapi3.readableType": {
 			reason: "the default case is unreachable: every value that flows into readableType (directly, or through the `resolved` parameter of resolveComponent) has one of the static types listed in its type switch",
